@@ -29,20 +29,60 @@ pub fn install_child_panic_hook() {
         };
         let loc = info.location().map(|l| format!("{}:{}", l.file(), l.line())).unwrap_or_default();
         let mut text = format!("{} @ {}", msg, loc);
-        if !loc.starts_with("/repo/") {
-            let bt = std::backtrace::Backtrace::force_capture().to_string();
-            if let Some(frame) = bt.lines().map(|l| l.trim()).find(|l| l.starts_with("at /repo/")) {
-                let f = frame.trim_start_matches("at ");
-                // file:line:col -> file:line
+        // The rten frames below the panic: the first one outside the tensor /
+        // support crates goes into the signature when the panic itself was
+        // raised in the standard library, a dependency or rten-tensor.
+        let bt = std::backtrace::Backtrace::force_capture().to_string();
+        let mut frames: Vec<String> = Vec::new();
+        for l in bt.lines().map(|l| l.trim()) {
+            if let Some(f) = l.strip_prefix("at /repo/") {
                 let mut parts = f.rsplitn(2, ':');
                 let _col = parts.next();
-                text.push_str(&format!(" [first rten frame {}]", parts.next().unwrap_or(f)));
+                let fl = parts.next().unwrap_or(f).to_string();
+                if frames.last() != Some(&fl) {
+                    frames.push(fl);
+                }
+                if frames.len() >= 8 {
+                    break;
+                }
             }
+        }
+        if !loc.starts_with("/repo/src/") {
+            if let Some(f) = frames.iter().find(|f| f.starts_with("src/")) {
+                text.push_str(&format!(" [first rten frame /repo/{}]", f));
+            }
+        }
+        if !frames.is_empty() {
+            text.push_str(&format!(" [frames {}]", frames.join(" <- ")));
         }
         if let Ok(mut slot) = LAST_PANIC.lock() {
             *slot = Some(text);
         }
     }));
+}
+
+/// Called by the allocation monitor just before it refuses a request: write
+/// the rten frames that asked for the memory to stderr, where the parent finds
+/// them after the abort.
+fn on_alloc_refused(size: usize) {
+    let bt = std::backtrace::Backtrace::force_capture().to_string();
+    let mut files: Vec<String> = Vec::new();
+    for l in bt.lines().map(|l| l.trim()) {
+        if let Some(f) = l.strip_prefix("at /repo/") {
+            let file = f.split(':').next().unwrap_or(f).to_string();
+            if files.last() != Some(&file) {
+                files.push(file);
+            }
+            if files.len() >= 4 {
+                break;
+            }
+        }
+    }
+    eprintln!("C05-ALLOC-REFUSED {} bytes; rten frames: {}", size, files.join(" <- "));
+}
+
+pub fn install_child_alloc_hook() {
+    allocmon::set_on_refuse(on_alloc_refused);
 }
 
 /// `catch_unwind` that returns the text recorded by the child's hook.
@@ -499,7 +539,7 @@ pub fn exec_case(bytes: &[u8], mask: u32, rten_ext: bool, env: &Env, region: Opt
             r.set_stage(ST_LOAD, e);
         }
         unsafe { libc::alarm(xo.alarm_s) };
-        allocmon::set_refuse_above(allocmon::REFUSE_ABOVE);
+        allocmon::set_refuse_above(crate::c05::LOAD_REFUSE_ABOVE);
         let t0 = std::time::Instant::now();
         let (r, max_alloc) = allocmon::measure(|| catch_panic(|| load_entry(e, bytes, rten_ext, env)));
         out.micros = t0.elapsed().as_micros() as u64;
